@@ -146,6 +146,8 @@ func vErrEnum(err error) string {
 		return "segment-not-found"
 	case strings.Contains(s, "entry not found"):
 		return "entry-not-found"
+	case strings.Contains(s, "invalid string length"):
+		return "encode"
 	}
 	return "other:" + s
 }
